@@ -103,6 +103,83 @@ def iterLoop (v : Nat) : Nat → Nat → Nat → List Chunk
 
 def simdIter (v n : Nat) : List Chunk := iterLoop v n 0 n
 
+
+/-! ## Fold skeletons of `Iter` (iter.rs): `fold`, `fold_n`, `fold_unroll`, `fold_n_unroll`
+
+A SIMD register is modelled as a function from lane number to lane value (only lanes `< v`
+matter).  `β` is the per-lane accumulator state: one value for `fold`, an `N`-tuple for `fold_n`
+(the code applies `select` to each of the `N` accumulators with the same mask, which is `select`
+on the tuple). `f` is the per-lane accumulate function. -/
+section Fold
+variable {α β : Type}
+
+/-- Lane that follows lane `p` in a `v`-lane register (`(p + 1) mod v` without `mod`). -/
+def nextLane (v p : Nat) : Nat := if p + 1 = v then 0 else p + 1
+
+def advance (v : Nat) : Nat → Nat → Nat
+  | p, 0 => p
+  | p, k + 1 => advance v (nextLane v p) k
+
+def updLane (f : β → α → β) (acc : Nat → β) (p : Nat) (x : α) : Nat → β :=
+  fun j => if j = p then f (acc j) x else acc j
+
+/-- **Scalar reference**: element number `i` of the slice is folded, in slice order and exactly
+once, into lane `i mod v` (the lane pointer starts at `p`). Nothing else ever reaches an
+accumulator. -/
+def sFold (v : Nat) (f : β → α → β) : Nat → List α → (Nat → β) → (Nat → β)
+  | _, [], acc => acc
+  | p, x :: xs, acc => sFold v f (nextLane v p) xs (updLane f acc p x)
+
+/-- `load_ptr` of a whole chunk / `load_pad` of a short one: missing lanes are `pad` (zero). -/
+def loadVec (pad : α) (c : List α) : Nat → α := fun j => c.getD j pad
+
+def vfold (f : β → α → β) (acc : Nat → β) (x : Nat → α) : Nat → β := fun j => f (acc j) (x j)
+
+def vselect (m : Nat → Bool) (a b : Nat → β) : Nat → β := fun j => if m j then a j else b j
+
+/-- `for chunk in &mut self { accum = fold(accum, chunk) }` — `Iter::next` takes `W` elements
+while `split_at_checked(W)` succeeds. Returns the unconsumed rest and the accumulator. -/
+def mainLoop (f : β → α → β) (pad : α) (W : Nat) : Nat → List α → (Nat → β) → List α × (Nat → β)
+  | 0, rest, acc => (rest, acc)
+  | fuel + 1, rest, acc =>
+    if W ≤ rest.length then
+      mainLoop f pad W fuel (rest.drop W) (vfold f acc (loadVec pad (rest.take W)))
+    else (rest, acc)
+
+/-- The tail step of `fold` / `fold_n`:
+```
+if let Some((tail, mask)) = self.tail() {
+    let new_accum = fold(accum, tail);
+    accum = self.ops.select(new_accum, accum, mask);
+}
+```
+`sel = false` is the same step *without* the `select` (used for the negation witness). -/
+def foldTail (sel : Bool) (f : β → α → β) (pad : α) (v : Nat) (rest : List α) (acc : Nat → β) :
+    Nat → β :=
+  if rest.length > 0 then
+    let new := vfold f acc (loadVec pad rest)
+    if sel then vselect (fun j => decide (j < min rest.length v)) new acc else new
+  else acc
+
+/-- `Iter::fold` / `Iter::fold_n`. -/
+def iterFold (sel : Bool) (f : β → α → β) (pad : α) (v : Nat) (xs : List α) (acc : Nat → β) :
+    Nat → β :=
+  let r := mainLoop f pad v xs.length xs acc
+  foldTail sel f pad v r.1 r.2
+
+/-- `Iter::fold_unroll::<u>` / `fold_n_unroll`: `u` accumulators of `v` lanes, all starting from
+`init`, are one accumulator of `v·u` virtual lanes (accumulator `i`, lane `j` ↦ `i·v + j`, as
+`load_ptr(chunk.add(v * i))` shows); they are merged with the caller's `fold_acc`, then the
+remaining `< v·u` elements go through the plain `fold`. -/
+def foldUnroll (f : β → α → β) (facc : β → β → β) (pad : α) (v u : Nat) (xs : List α)
+    (init : Nat → β) : Nat → β :=
+  let r := mainLoop f pad (v * u) xs.length xs (fun l => init (l % v))
+  let merged : Nat → β := fun j =>
+    (List.range (u - 1)).foldl (fun a i => facc a (r.2 ((i + 1) * v + j))) (r.2 j)
+  iterFold true f pad v r.1 merged
+
+end Fold
+
 /-! ## `SliceWriter` (writer.rs) -/
 
 inductive WOp where
